@@ -96,7 +96,12 @@ fn libs(fields: &[String]) -> Vec<String> {
     std::fs::remove_dir_all(&base).ok();
     std::fs::create_dir_all(&base).ok();
     let mut it = progx::new_interpreter(&fields[0]);
-    it.program_directory = Some(std::path::PathBuf::from(&base));
+    // a field `D` records the program directory only THEN (submissions before it run on an interpreter that has none yet);
+    // without such a field it is recorded before anything else
+    let late = fields[1..].iter().any(|f| f == "D");
+    if !late {
+        it.program_directory = Some(std::path::PathBuf::from(&base));
+    }
     // the process's WORKING directory is another, private directory: `W<path>=<content>` puts a file there (a decoy: library
     // files are looked up relative to the program, never relative to the working directory)
     let cwd = format!("{}/cwd-{}", dir, std::process::id());
@@ -135,6 +140,17 @@ fn libs(fields: &[String]) -> Vec<String> {
             }
         } else if let Some(form) = f.strip_prefix('>') {
             out.push(crate::eval_form(&mut it, form));
+        } else if f == "D" {
+            it.program_directory = Some(std::path::PathBuf::from(&base));
+        } else if let Some(rel) = f.strip_prefix('E') {
+            // run a program FILE (written by an earlier F field) through eval_file on the same interpreter
+            let full = std::path::PathBuf::from(&base).join(rel);
+            out.push(match std::panic::catch_unwind(std::panic::AssertUnwindSafe(|| it.eval_file(full))) {
+                Ok(Ok(Some(v))) => format!("V {}", crate::canon_value(&v)),
+                Ok(Ok(None)) => "N".to_string(),
+                Ok(Err(e)) => crate::canon_err(&e),
+                Err(p) => crate::panic_message(p),
+            });
         }
     }
     std::fs::remove_dir_all(&base).ok();
